@@ -493,16 +493,32 @@ fn run(s: &Scn, st: &mut Stats) -> Verdict {
             let d = EvaluationDomain::<Fq>::new(2, *k);
             let x = uniform_fq(&mut rng);
             let xn = x.pow_vartime([n]);
-            let got = guarded!("l_i_range", d.l_i_range(x, xn, *from..*to));
+            // the index list: the ascending range, or (drawn from the run's generator) the range
+            // reversed, stepped, shuffled, or with repeated indices - the argument is any iterator
+            let mut list: Vec<i32> = (*from..*to).collect();
+            match rng.below(6) {
+                0 => list.reverse(),
+                1 => list = list.into_iter().step_by(2).collect(),
+                2 => rng.shuffle(&mut list),
+                3 => {
+                    let extra: Vec<i32> = list.iter().rev().take(3).copied().collect();
+                    list.extend(extra);
+                }
+                _ => {}
+            }
+            let got = guarded!("l_i_range", d.l_i_range(x, xn, list.clone()));
+            if got.len() != list.len() {
+                return mismatch("l_i_range", format!("k={k} indices {list:?}: {} values returned", got.len()));
+            }
             let w = d.get_omega();
             let n_inv = Fq::from(n).invert().unwrap();
-            for (idx, i) in (*from..*to).enumerate() {
+            for (idx, i) in list.iter().copied().enumerate() {
                 // l_i(x) = (x^n - 1) w^i / (n (x - w^i)), indices mod n (negative and beyond-n included)
                 let e = (i as i64).rem_euclid(n as i64) as u64;
                 let wi = w.pow_vartime([e]);
                 let expect = (xn - Fq::ONE) * wi * n_inv * (x - wi).invert().unwrap();
                 if got[idx] != expect {
-                    return mismatch("l_i_range", format!("k={k} range {from}..{to}: l_{i}(x) differs from the Lagrange basis polynomial"));
+                    return mismatch("l_i_range", format!("k={k} indices {list:?}: l_{i}(x) differs from the Lagrange basis polynomial"));
                 }
             }
         }
